@@ -19,6 +19,11 @@ CHECKS = {
    technique="deterministic simulation: real Resolver/AutoTA on fake clock (synctest) + simulated network and disk; per-history enumeration of crash points and disk errors; RFC 5011 reference state machine as oracle",
    text="Each generated root DNSKEY publication history (20-200 fake days, restarts, disk events) runs fault-free against an independent RFC 5011 state machine with exact comparison of the live trust set after every refresh; then the disk operations of its state-changing refreshes (revocations first) are failed (EIO/ENOSPC/short write/failing sync/failing rename) and crashed (volatile state lost/kept/torn) one at a time, re-running the history with relaxed-but-narrow invariants (never-early, revoked-never-again, fail-closed). Quick tier rotates one fault kind per operation over 1-2 refreshes per history; thorough tries every kind over up to 4.",
    note="Trusts the reference state machine, simdisk's durability model (content durable at Sync, directory entries durable at directory Sync) and the 2-minute tolerance band at hold-down boundaries. The middleware chain is an empty pipeline; only the resolver runs."),
+ "C01": dict(
+   level="exploration", design="§3 C01",
+   technique="deterministic simulation: full sdns chain + real resolver on fake clock over simulated network; signing authoritative world with path-wide response tampering; ground-truth resolver over the zone model as oracle",
+   text="Seeded search over generated zone hierarchies (signed/unsigned/opt-out, algorithms 8/10/13/14/15, NSEC/NSEC3, wildcards, CNAME/DNAME, shared servers, expired signature windows), sequential client histories with DO/AD/CD mixes that re-ask names (cache routes), and 21 kinds of path-wide tampering of chosen resolution steps, or no trust anchor. Every CD=0 reply for a securely delegated name must be SERVFAIL or equal the model's answer; AD only where entitled and secure; tamperings of the question's own response must surface as SERVFAIL. Sampling, not proof.",
+   note="Trusts authsim (RFC 4034/4035/5155 answers, checked by the fault-free run: zero-tamper scenarios must reproduce ground truth) and miekg/dns signing. Names in NSEC3 opt-out spans are treated as unauthenticated. Three open findings and several fixed ones are listed in known_findings.json."),
 }
 
 NOT_APPLICABLE = {
